@@ -190,6 +190,9 @@ func ResolveAnchors(p *Prog) *Anchors {
 		}
 		for _, e := range n.Out {
 			_, isGo := e.Site.(*ssa.Go)
+			if p.Cfg.UseCHA && p.neverAllocatedRecv(e.Callee.Func) {
+				continue
+			}
 			walk(e.Callee.Func, fg && !isGo)
 		}
 	}
